@@ -1325,12 +1325,8 @@ std::string Annotator::AnnotatorImpl::setAutoId(const AnyCellmlElementPtr &item)
             update();
             newId = makeUniqueId();
 
-            if (!oldId.empty()) {
-                removeId(item, oldId);
-            }
-
             setId(item, newId);
-            mIdList.insert(std::make_pair(newId, convertToWeak(item)));
+            buildIdList();
             mHash = generateHash();
         } else {
             addIssueNoModel();
